@@ -3,11 +3,12 @@
   Property theorems only; the model is FordModel/PageTree.lean (tied to the source by the
   generated constants of Generated/C17.lean and by differential execution in harness/c17.py),
   the specification vocabulary is FordModel/PageTreeSpec.lean, helper lemmas are in
-  FordModel/Lemmas/PageTree.lean.
+  FordModel/Lemmas/PageTree.lean and FordModel/Lemmas/PageTreeNodup.lean.
 -/
 import FordModel.PageTree
 import FordModel.PageTreeSpec
 import FordModel.Lemmas.PageTree
+import FordModel.Lemmas.PageTreeNodup
 namespace Ford.C17
 open Ford Ford.PT Ford.Gen.C17
 
@@ -185,6 +186,113 @@ example :
     gpFreeL Variant.asIs none (some ["img".toList]) w = true ∧ orderedOkL w = true ∧
     (resPaths (getPageTree Variant.asIs w)).length = 5 := by decide
 
+/-! ### exactly one page per titled Markdown file (multiplicity) -/
+
+/-- "at the same relative path" never sends two Markdown files of one directory to the same page:
+    `<stem>.md -> <stem>.html` is injective on names with suffix `.md`. -/
+theorem same_page_same_file (a b : Str) (ha : isMd a = true) (hb : isMd b = true)
+    (h : specHtml a = specHtml b) : a = b :=
+  specHtml_inj a b ha hb h
+
+/-- "EXACTLY ONE page", specification side: the pages that the statement expects of a page directory
+    (distinct entry names per directory, at every depth) are pairwise distinct - two different titled
+    Markdown files never claim the same page, a file page `loc/x.html` is never a page below a
+    sub-directory `loc/n/...`, and only index.md claims `index.html`.  Full strength: no exclusion. -/
+theorem expected_pages_distinct (cs : List Entry) (hn : (names cs).Nodup) (hwf : wfEntries cs = true) :
+    (expPages cs).Nodup :=
+  expPages_nodup cs hn hwf
+
+/-- ... and for the sub-tree of one entry at any location. -/
+theorem expected_subtree_distinct (e : Entry) (loc : PathS) (hwf : wfEntry e = true) :
+    (expEntry loc e).Nodup :=
+  expEntry_nodup e loc hwf
+
+/-- The expected pages are the titled Markdown files, one page each, "at the same relative path":
+    `expPages` is the list of titled files mapped through `<dir>/<stem>.md -> <dir>/<stem>.html`; that
+    map is injective on the titled files of a page directory, and no file is listed twice. -/
+theorem expected_pages_are_titled_files (cs : List Entry) (hn : (names cs).Nodup) (hwf : wfEntries cs = true) :
+    expPages cs = (titledFiles cs).map pageOf ∧ (titledFiles cs).Nodup ∧
+    (∀ a ∈ titledFiles cs, ∀ b ∈ titledFiles cs, pageOf a = pageOf b → a = b) := by
+  have h := expPages_nodup cs hn hwf
+  rw [expPages_eq_map] at h
+  exact ⟨expPages_eq_map cs, nodup_of_nodup_map pageOf _ h, inj_of_nodup_map pageOf _ h⟩
+
+/-- "EXACTLY ONE page", implementation side: the pages of the tree that `get_page_tree` builds are
+    pairwise distinct - no page path is produced twice, whatever `ordered_subpage` lists (a name twice,
+    a name that the directory listing finds as well, index.md, hidden and backup names, names that do
+    not exist), whatever `copy_subdir` says, in every variant, and also when the run aborts (then
+    there is no page).  Partial: only the class of finding C17-dotted-stem-truncated is excluded
+    (`plainStemsL`; see `dotted_stem_collision_witness`); the `copy_subdir` and dangling
+    `ordered_subpage` exclusions of `mirror_partial` are not needed here. -/
+theorem pages_distinct_partial (v : Variant) (cs : List Entry)
+    (hn : (names cs).Nodup) (hwf : wfEntries cs = true) (hstems : plainStemsL cs = true) :
+    (resPaths (getPageTree v cs)).Nodup :=
+  getPageTree_nodup v cs hn hwf hstems
+
+/-- ... and for the sub-tree built from one entry at any location, with any `copy_subdir` of the
+    directory above. -/
+theorem pages_distinct_subtree_partial (v : Variant) (e : Entry) (own : List Str)
+    (hier : List (PathS × Str)) (loc : PathS) (sibs : List Entry)
+    (hwf : wfEntry e = true) (hstems : plainStems e = true) :
+    (resPaths (entryRes v own hier loc sibs e)).Nodup :=
+  entryRes_nodup v e own hier loc sibs hwf hstems
+
+/-- ... and for every project encoding, on the directory as it is on disk. -/
+theorem pages_distinct_any_encoding_partial (v : Variant) (enc : Str) (cs : List RawEntry)
+    (hn : (names (viewL enc cs)).Nodup) (hwf : wfEntries (viewL enc cs) = true)
+    (hstems : plainStemsL (viewL enc cs) = true) :
+    (resPaths (getPageTreeRaw CallSites.gen v enc cs)).Nodup := by
+  unfold getPageTreeRaw
+  rw [decodeL_gen]
+  exact getPageTree_nodup v _ hn hwf hstems
+
+/-- **Bijection "titled Markdown file <-> page".**  Under the hypotheses of `mirror_partial`, the
+    sequence of page paths of the tree that `get_page_tree` builds is a rearrangement of the list
+    `titledFiles cs` mapped through `<stem>.md -> <stem>.html` - every titled Markdown file occurs
+    exactly once in that list and the map is injective on it (`expected_pages_are_titled_files`) - so
+    every titled file has exactly one page (`count = 1`), at the same relative path, and there is no
+    other page. -/
+theorem pages_bijection_partial (v : Variant) (cs : List Entry)
+    (hn : (names cs).Nodup) (hwf : wfEntries cs = true)
+    (hstems : plainStemsL cs = true)
+    (hgp : gpFreeL v none (match indexMeta cs with | some (m, _) => some m.copySub | none => none) cs = true)
+    (hnoab : ∀ q, getPageTree v cs ≠ .abort q) :
+    (resPaths (getPageTree v cs)).Perm ((titledFiles cs).map pageOf) ∧
+    (∀ f ∈ titledFiles cs, (resPaths (getPageTree v cs)).count (pageOf f) = 1) := by
+  have hd := getPageTree_nodup v cs hn hwf hstems
+  have hp : (resPaths (getPageTree v cs)).Perm ((titledFiles cs).map pageOf) := by
+    rw [← expPages_eq_map]
+    exact perm_of_nodup_mem hd (expPages_nodup cs hn hwf)
+      (getPageTree_mirror v cs hn hwf hstems hgp hnoab)
+  refine ⟨hp, fun f hf => ?_⟩
+  rw [hd.count, if_pos (hp.mem_iff.mpr (List.mem_map_of_mem hf))]
+
+/-- non-vacuity: `z.md` is listed twice in `ordered_subpage` and is found by the directory listing as
+    well, `sub` is listed and found, index.md is listed explicitly, next to hidden / backup names and a
+    three-level tree; the hypotheses of `pages_bijection_partial` hold, the six pages are built once
+    each, and they are the pages of the six titled files. -/
+example :
+    let w : List Entry :=
+      [.file "z.md".toList ⟨some ['Z'], [], [], []⟩,
+       .file "index.md".toList
+         ⟨some ['T'], ["z.md".toList, "index.md".toList, "sub".toList, "z.md".toList, ".h.md".toList, "sub".toList],
+          [], []⟩,
+       .file "a.md".toList ⟨some ['A'], [], [], []⟩,
+       .file ".h.md".toList ⟨some ['H'], [], [], []⟩,
+       .file "old.md~".toList ⟨some ['O'], [], [], []⟩,
+       .dir "sub".toList [.file "index.md".toList ⟨some ['S'], ["a.md".toList, "a.md".toList], [], []⟩,
+                          .file "a.md".toList ⟨some ['A'], [], [], []⟩,
+                          .dir "deep".toList [.file "index.md".toList ⟨some ['D'], [], [], []⟩]]]
+    (names w).Nodup ∧ wfEntries w = true ∧ plainStemsL w = true ∧
+    gpFreeL Variant.asIs none (some []) w = true ∧ orderedOkL w = true ∧
+    (resPaths (getPageTree Variant.asIs w)).length = 6 ∧ (resPaths (getPageTree Variant.asIs w)).Nodup ∧
+    titledFiles w = [["index.md".toList], ["z.md".toList], ["a.md".toList], ["sub".toList, "index.md".toList],
+                     ["sub".toList, "a.md".toList], ["sub".toList, "deep".toList, "index.md".toList]] ∧
+    resPaths (getPageTree Variant.asIs w) =
+      [["index.html".toList], ["z.html".toList], ["sub".toList, "index.html".toList],
+       ["sub".toList, "a.html".toList], ["sub".toList, "deep".toList, "index.html".toList], ["a.html".toList]] := by
+  decide
+
 /-! ### witnesses of the known findings (the code as it is) -/
 
 /-- C17-dotted-stem-truncated: `v1.2.md` is written to `v1.html`, the statement expects `v1.2.html`. -/
@@ -194,6 +302,24 @@ theorem dotted_stem_witness :
       = [["index.html".toList], ["v1.html".toList]] ∧
     expPages [.file "index.md".toList ⟨some ['T'], [], [], []⟩, .file "v1.2.md".toList ⟨some ['V'], [], [], []⟩]
       = [["index.html".toList], ["v1.2.html".toList]] := by decide
+
+/-- C17-dotted-stem-truncated, multiplicity: the exclusion `plainStemsL` of `pages_distinct_partial` is
+    needed for the code as it is.  The titled files `v1.2.md` and `v1.3.md` (and likewise `v1.md` next to
+    `v1.2.md`) are both given the page path `v1.html`: the tree has two pages at one path (one file
+    overwrites the other), while the statement expects two distinct pages. -/
+theorem dotted_stem_collision_witness :
+    let w : List Entry :=
+      [.file "index.md".toList ⟨some ['T'], [], [], []⟩,
+       .file "v1.2.md".toList ⟨some ['A'], [], [], []⟩, .file "v1.3.md".toList ⟨some ['B'], [], [], []⟩]
+    let w' : List Entry :=
+      [.file "index.md".toList ⟨some ['T'], [], [], []⟩,
+       .file "v1.md".toList ⟨some ['A'], [], [], []⟩, .file "v1.2.md".toList ⟨some ['B'], [], [], []⟩]
+    (names w).Nodup ∧ wfEntries w = true ∧ plainStemsL w = false ∧
+    resPaths (getPageTree Variant.asIs w) = [["index.html".toList], ["v1.html".toList], ["v1.html".toList]] ∧
+    ¬ (resPaths (getPageTree Variant.asIs w)).Nodup ∧
+    expPages w = [["index.html".toList], ["v1.2.html".toList], ["v1.3.html".toList]] ∧
+    resPaths (getPageTree Variant.asIs w') = [["index.html".toList], ["v1.html".toList], ["v1.html".toList]] ∧
+    expPages w' = [["index.html".toList], ["v1.html".toList], ["v1.2.html".toList]] := by decide
 
 /-- C17-copy-subdir-checked-on-grandparent: `copy_subdir: img` in the top index.md makes the titled
     sub-tree `sub/img` disappear (while the statement expects it, and the variant without the test
